@@ -188,6 +188,11 @@ def check_one(args):
         res['problems'].append({'kind': 'panic', 'what': 'panic: ' + out['panic'], 'word': []})
         res['stats'] = st.__dict__
         return res
+    if out.get('err') and 'multiple definitions with the same value' in out['err']:
+        # emerge's own well-formedness rule (a literal and a pattern written with the same text): not judged here
+        res['skipped'] = 'same-value rule'
+        res['stats'] = st.__dict__
+        return res
     if out.get('err') or not out.get('spec'):
         res['problems'].append({'kind': 'rejected', 'what': 'a well-formed specification is rejected: %s' % out.get('err'), 'word': []})
         res['stats'] = st.__dict__
@@ -358,6 +363,7 @@ def run(tier, rep):
         rep.coverage.update({
             'programs': len(work), 'samples': samples, 'queries': total.queries, 'queries_sat': total.sat, 'queries_unsat': total.unsat, 'queries_unknown': total.unknown,
             'solver_seconds': round(total.seconds, 2), 'word_length_bound': L, 'sets_differing': len({t for t, _ in problems}),
+            'sets_rejected_by_same_value_rule_not_judged': sum(1 for r in results if r.get('skipped')),
             'functions_run': ['spec.Parse', '(*Spec).DFA', 'spec.stringToDFA', 'spec.regexToDFA', 'auto.CombineDFA'],
         })
         rep.coverage.setdefault('disagreements_checked', 0)
